@@ -54,6 +54,8 @@ REWRITES = [
     # R17: RefMut<'_, T> returned by the (assumed) doctype_id glue is an exclusive borrow
     Rewrite('R17-refmut', r"RefMut<'_, Option<StrTendril>>", '&mut Option<StrTendril>'),
     Rewrite('R-vis', r'\bpub\(super\)\s+', 'pub '),
+    # ---- R22: an explicit drop of a RefMut only ends the dynamic borrow; with `&mut` (R17) the borrow ends by itself
+    Rewrite('R22-drop', r'drop\(front_buffer\);', ''),
     # ---- R19: the generated PHF map of named entities is a model function with an ASSUMED contract over
     #      the uninterpreted entity table; byte-range slicing of the name buffer goes through the tendril model
     Rewrite('R19-entities', r'data::NAMED_ENTITIES\.get\(&self\.name_buf\(\)\[\.\.\]\)', 'named_entities_get(self.name_buf().as_str())'),
